@@ -469,17 +469,15 @@ theorem eval_wf [Zero R] [Add R] [Mul R] [Neg R] [Conj R] {d : SymDef} (hd : WSy
 dense multi-index do not satisfy the selection rule, the dense array holds `0` there — for any leg spaces
 `L` (also with extra sectors), any well-formed tensor. -/
 theorem toDense_zero_of_forbidden [Zero R] {T : Tensor R} (h : WF ms T) (L : List LegSpace) (idx : List Nat)
-    (hf : ∀ locs, (List.zipWith locate L idx).mapM id = some locs →
-      chargeOfKey T.sym T.s (locs.map (·.1)) ≠ T.n) :
+    (hf : chargeOfKey T.sym T.s (keyAt L idx T.rank) ≠ T.n) :
     toDenseOn L T idx = 0 := by
   unfold toDenseOn
   split
-  · rfl
-  · rename_i locs hl
-    split
+  · split
     · rfl
     · rename_i b hb
-      exact absurd (h.rule _ (Tensor.get?_some_mem hb)) (hf locs hl)
+      exact absurd (h.rule _ (Tensor.get?_some_mem hb)) hf
+  · rfl
 
 /-! ### the driver's executable check is sound for `WF` -/
 
